@@ -7,6 +7,7 @@ from pathlib import Path
 from kappadata.utils.logging import log
 from .copying_utils import create_folder_with_file
 from .copying_utils import folder_contains_mostly_zips, run_unzip_jobs
+from .copying_utils import delete_folder_content
 
 
 @dataclass
@@ -61,9 +62,9 @@ def copy_folder_from_global_to_local(
             else:
                 # incomplete copy -> delete and copy again
                 log(log_fn, f"found incomplete automatic copy in '{dst_path}' -> deleting folder")
-                shutil.rmtree(dst_path)
+                # start_copy_file stays (without it the leftover of a killed deletion would look like a manual copy)
+                delete_folder_content(dst_path, keep=start_copy_file.name)
                 was_deleted = True
-                dst_path.mkdir()
         else:
             log(log_fn, f"using manually copied dataset '{dst_path}'")
             return CopyFolderResult(was_copied=False, was_deleted=False, source_format=None)
